@@ -96,23 +96,24 @@ public:
 	}
 
 	value_type &push_back(const T &element) {
-		_ensure_capacity(_size + 1);
-		auto container = _get_container();
-		T *pointer = new (&container[_size]) T(element);
-		_size++;
-		return *pointer;
+		return emplace_back(element);
 	}
 	value_type &push_back(T &&element) {
-		_ensure_capacity(_size + 1);
-		auto container = _get_container();
-		T *pointer = new (&container[_size]) T(std::move(element));
-		_size++;
-		return *pointer;
+		return emplace_back(std::move(element));
 	}
 
 	template<typename... Args>
 	value_type &emplace_back(Args&&... args) {
-		_ensure_capacity(_size + 1);
+		if (_size + 1 > _capacity) {
+			// The arguments may refer to elements of this vector (e.g., v.push_back(v[0])).
+			// Hence, construct the new element before the old storage is released.
+			size_t new_capacity = (_size + 1) * 2;
+			T *new_array = (T *)_allocator.allocate(sizeof(T) * new_capacity);
+			T *pointer = new (&new_array[_size]) T(std::forward<Args>(args)...);
+			_relocate(new_array, new_capacity);
+			_size++;
+			return *pointer;
+		}
 		auto container = _get_container();
 		T *pointer = new (&container[_size]) T(std::forward<Args>(args)...);
 		_size++;
@@ -128,7 +129,16 @@ public:
 
 	template<typename... Args>
 	void resize(size_t new_size, Args&&... args) {
-		_ensure_capacity(new_size);
+		if (new_size > _capacity) {
+			// As in emplace_back(): the arguments may refer to elements of this vector.
+			size_t new_capacity = new_size * 2;
+			T *new_array = (T *)_allocator.allocate(sizeof(T) * new_capacity);
+			for (size_t i = _size; i < new_size; i++)
+				new (&new_array[i]) T(std::forward<Args>(args)...);
+			_relocate(new_array, new_capacity);
+			_size = new_size;
+			return;
+		}
 		auto container = _get_container();
 		if (new_size < _size) {
 			for (size_t i = new_size; i < _size; i++)
@@ -197,9 +207,13 @@ private:
 		if (capacity <= _capacity)
 			return;
 
-		auto container = _get_container();		
 		size_t new_capacity = capacity * 2;
 		T *new_array = (T *)_allocator.allocate(sizeof(T) * new_capacity);
+		_relocate(new_array, new_capacity);
+	}
+
+	void _relocate(T *new_array, size_t new_capacity) {
+		auto container = _get_container();
 		for(size_t i = 0; i < _size; i++)
 			new (&new_array[i]) T(std::move(container[i]));
 
